@@ -92,6 +92,10 @@ def gen_plan(seed, tier="quick"):
                                     "frames": [[24, (b0 << 16) | (b1 << 8) | e.randrange(256)]], "answer": None})
         plan["traffic"].sort(key=lambda t: t["t_us"])
     _unique_outs(r, plan)
+    if driver == "tridonic":
+        z = plans.rng_for(seed, PROP + "-line-b")
+        if z.random() < 0.15:
+            plan["second_line"] = plans.gen_second_line(z)
     return plan
 
 
@@ -221,6 +225,8 @@ def judge(rr):
         return out
     if rr.deadlock or rr.stepcap or rr.pending:
         V("send-never-returns", "deadlock=%s pending=%s" % (rr.deadlock, rr.pending))
+    for c_, d_, s_ in drvsim.judge_second_line(rr):
+        V(c_, d_, s_)
     all_values = set()
     for c in plan["callers"]:
         for op in c["ops"]:
